@@ -41,10 +41,10 @@ type step struct {
 // Addr designates a memory location: a heap object (ref) or a slice element (ref, idx), then a path of
 // field / array-index steps into the value stored there.
 type Addr struct {
-	elem bool       // slice/array-backing element
-	ref  *Term      // object ref or backing ref
-	idx  *Term      // absolute element index (elem)
-	off  *Term      // slice offset and relative index when known separately (idx == off + rel); used for trigger-friendly reads
+	elem bool  // slice/array-backing element
+	ref  *Term // object ref or backing ref
+	idx  *Term // absolute element index (elem)
+	off  *Term // slice offset and relative index when known separately (idx == off + rel); used for trigger-friendly reads
 	rel  *Term
 	root types.Type // type of the object / element
 	path []step
@@ -124,6 +124,8 @@ type Enc struct {
 	hints         []*Term
 	useWriterLog  bool
 	curCon        *FuncContract
+	entry         *tableEntry
+	freeVarVals   []Val
 	topConPkg     string
 	envAlias      func(env *evalEnv, args []Val)
 	closureHook   func(fr *Frame, x *ssa.MakeClosure, fnTerm *Term, st *State)
@@ -985,6 +987,17 @@ func (e *Enc) cutLoop(fr *Frame, head *ssa.BasicBlock, st *State) {
 			e.assume(st.reach, tb.Le(tb.Int(-1), fr.vals[phi].t()))
 		}
 	}
+	// automatic inductive bounds of counting loops: a variable that starts at a literal c and is only ever
+	// incremented (decremented) by positive literals stays >= c (<= c)
+	for _, phi := range phis {
+		if lo, up, ok := countingPhi(head, phi); ok {
+			if up {
+				e.assume(st.reach, tb.Le(tb.Int(lo), fr.vals[phi].t()))
+			} else {
+				e.assume(st.reach, tb.Le(fr.vals[phi].t(), tb.Int(lo)))
+			}
+		}
+	}
 	if len(frameRegs) > 0 {
 		if f := e.loopFrame(fr, st, frameRegs); f != nil {
 			e.assume(st.reach, f)
@@ -1452,4 +1465,40 @@ func (e *Enc) elemRead(h *Term, a *Addr) *Term {
 			tb.Eq(tb.Func(name, []string{base.sort, "Int", "Int", "Int"}, es, H, r, o, i), tb.Select(tb.Select(H, r), tb.Add(o, i)))))
 	}
 	return t
+}
+
+// countingPhi recognises i := c; ...; i += k (k > 0 literal) resp. i -= k at a loop head.
+func countingPhi(head *ssa.BasicBlock, phi *ssa.Phi) (start int64, up bool, ok bool) {
+	if b, isBasic := phi.Type().Underlying().(*types.Basic); !isBasic || b.Info()&types.IsInteger == 0 {
+		return 0, false, false
+	}
+	haveStart, haveStep := false, false
+	for i, p := range head.Preds {
+		e := phi.Edges[i]
+		if isBackEdge(p, head) {
+			bo, isBin := e.(*ssa.BinOp)
+			if !isBin || bo.X != phi {
+				return 0, false, false
+			}
+			k, isConst := constInt(bo.Y)
+			if !isConst || k <= 0 {
+				return 0, false, false
+			}
+			dirUp := bo.Op == token.ADD
+			if bo.Op != token.ADD && bo.Op != token.SUB {
+				return 0, false, false
+			}
+			if haveStep && dirUp != up {
+				return 0, false, false
+			}
+			up, haveStep = dirUp, true
+		} else {
+			c, isConst := constInt(e)
+			if !isConst || (haveStart && int64(c) != start) {
+				return 0, false, false
+			}
+			start, haveStart = int64(c), true
+		}
+	}
+	return start, up, haveStart && haveStep
 }
